@@ -1350,6 +1350,18 @@ class SubunitV2OutputFormatter(SubunitOutputFormatter):
             test_tags=self._subunit.current_tags, timestamp=now)
 
 
+# Characters that must not occur in an XML 1.0 document, not even as a
+# character reference.
+_not_xml_chars = re.compile(
+    '[^\t\n\r\x20-\ud7ff\ue000-\ufffd\U00010000-\U0010ffff]')
+
+
+def xml_safe(text):
+    """Replace the characters XML cannot represent by a readable escape."""
+    return _not_xml_chars.sub(
+        lambda match: '\\x%02x' % ord(match.group()), text)
+
+
 @dataclass
 class TestSuiteInfo:
 
@@ -1616,6 +1628,13 @@ class XMLOutputFormattingWrapper:
             testSuiteNode.append(systemOutNode)
             systemErrNode = ElementTree.Element('system-err')
             testSuiteNode.append(systemErrNode)
+
+            # test ids, messages and tracebacks can contain anything
+            for node in testSuiteNode.iter():
+                if node.text:
+                    node.text = xml_safe(node.text)
+                for k, v in node.attrib.items():
+                    node.set(k, xml_safe(v))
 
             # indent the XML structure
             with suppress(AttributeError):
